@@ -96,6 +96,12 @@ def main():
     valid = gfam.valid_schemas(args.tier)
     for name, text in valid:
         cases.append({'kind': 'valid', 'name': name, 'text': text})
+    # three schemas in one file with USE / REFERENCE chains, renames and cycles, under every assignment of the schema names
+    for name, text, ok in gfam.interface_family(args.tier):
+        if ok:
+            cases.append({'kind': 'valid', 'name': name, 'text': text})
+        else:
+            cases.append({'kind': 'invalid', 'name': name, 'cls': 'undefined-interfaced-item', 'detail': 'name-before-rename', 'planted': 'widget', 'text': text})
     ship = gfam.shipped()
     if args.tier == 'quick':
         ship = [s for s in ship if os.path.getsize(s[1]) < 300000]
